@@ -496,7 +496,7 @@ def run_impl(case):
     if case['kind'] == 'engine':
         return run_engine(case)
     if case['kind'] == 'print':
-        return [real_tokenize(EL.to_source(case['prog'], 'f')), 1 if EL.in_f1(case['prog']) else 0]
+        return [real_tokenize(EL.to_source(case['prog'], 'f')), 1 if EL.in_f1(case['prog']) else 0, 1 if EL.in_f2(case['prog']) else 0]
     if case['kind'] in ('def', 'nc'):
         from plasTeX.TeX import TeX, TeXDocument
         doc = TeXDocument()
@@ -536,14 +536,14 @@ def nontrivial(case, io):
 def tags(case, io):
     t = [case['kind']]
     if case['kind'] == 'print':
-        return t + ['print:F1' if EL.in_f1(case['prog']) else 'print:beyond-F1']
+        return t + ['print:F1' if EL.in_f1(case['prog']) else ('print:F2' if EL.in_f2(case['prog']) else 'print:beyond-F2')]
     if case['kind'] == 'engine':
         if isinstance(io, list) and io[:1] == [-2]:
             t.append('engine:impl-raises')
         if isinstance(io, list) and io[:1] == ['skip']:
             t.append('engine:skipped')
         if case.get('prog') is not None:
-            t.append('engine:F1' if EL.in_f1(case['prog']) else 'engine:beyond-F1')
+            t.append('engine:F1' if EL.in_f1(case['prog']) else ('engine:F2' if EL.in_f2(case['prog']) else 'engine:beyond-F2'))
         return t
     if case['kind'] == 'def':
         t.append('params=%d' % sum(1 for x in case['args'] if x == HASH))
@@ -590,7 +590,7 @@ def judge(case, io, mo):
     if case['kind'] == 'print':
         # Spec/MacroPrint.print against the real Tokenizer on the printed source (and the fragment test against its Python twin):
         # a difference is about the printing convention of the theorem, not about the property
-        if isinstance(mo, list) and len(mo) == 3 and isinstance(io, list) and len(io) == 2 and mo[0] == io[0] and mo[1] == io[1]:
+        if isinstance(mo, list) and len(mo) == 4 and isinstance(io, list) and len(io) == 3 and mo[0] == io[0] and mo[1] == io[1] and mo[3] == io[2]:
             return None
         return dict(violation=False, key='C02:print', expected=mo, what='Tokenizer gives %s, Spec/MacroPrint.print %s' % (str(io)[:300], str(mo)[:300]))
     if case['kind'] in ('def', 'nc'):
